@@ -156,7 +156,7 @@ CLAIMED['C01'] = dict(
           'nothing trimmed); json.dumps/json.loads pairing; one record per header; encoding-scope agreement of both sides '
           'with one oracle over all histories (K1); first-line detection of line endings.'),
     note=('Everything value-level is undecided: content that looks like headers, NUL bytes, exotic codecs, equality of '
-          'decoded text. A defect inside split_lines itself is not seen (C16 not applicable).'),
+          'decoded text.'),
     technique='def-use / typestate rules over abstract paths of writer and reader + exhaustive scope-stack exploration')
 CLAIMED['C03'] = dict(
     category='other',
